@@ -33,6 +33,20 @@ type c05Round struct {
 
 func init() {
 	register(&Check{ID: "C05", Run: runC05, Replay: func(w *core.W, kind string, raw json.RawMessage) {
+		if kind == "hammer" {
+			var hc hammerCase
+			if json.Unmarshal(raw, &hc) == nil {
+				prepareRaceLog()
+				for i := 0; i < 5; i++ { // a schedule cannot be replayed: the workload is repeated
+					w.Begin("hammer", &hc)
+					if !judgeHammer(w, &hc) {
+						break
+					}
+					hc.Seed++
+				}
+			}
+			return
+		}
 		var c c05Round
 		if err := json.Unmarshal(raw, &c); err != nil {
 			w.R.Inconclusive("replay case does not decode: " + err.Error())
@@ -561,8 +575,77 @@ func raceDedupKey(blk string) string {
 	return strings.Join(frames, "|")
 }
 
+// hammerCase: few keys, many goroutines, very many requests on ONE instance with minimal handlers: every
+// response describes the request it answers (route text and parameters), so each is judged on its own, without
+// a twin. This is where anything the router remembers between requests gets hit at a high rate.
+type hammerCase struct {
+	Goroutines int    `json:"goroutines"`
+	PerG       int    `json:"requests_per_goroutine"`
+	Keys       int    `json:"distinct_keys"`
+	Seed       uint64 `json:"seed"`
+}
+
+func hammerExpect(kind int, k int) (path, want string) {
+	switch kind {
+	case 0:
+		return fmt.Sprintf("/user/u%d/posts/%d", k, k), fmt.Sprintf("user u%d %d route=/user/{id}/posts/{n}", k, k)
+	case 1:
+		return fmt.Sprintf("/item/i%d", k), fmt.Sprintf("item i%d route=/item/{id}", k)
+	case 2:
+		return fmt.Sprintf("/files/d%d/e%d/raw", k, k), fmt.Sprintf("files d%d/e%d route=/files/{path: **}/raw", k, k)
+	case 3:
+		return fmt.Sprintf("/v/%d-x%d", k, k), fmt.Sprintf("ver %d x%d route=/v/{a: /[0-9]+/}-{b}", k, k)
+	default:
+		return fmt.Sprintf("/missing/m%d", k), "nf"
+	}
+}
+
+func judgeHammer(w *core.W, c *hammerCase) bool {
+	f := flamego.NewWithLogger(io.Discard)
+	f.NotFound(func() (int, string) { return 404, "nf" })
+	f.Get("/user/{id}/posts/{n}", func(x flamego.Context) string {
+		return "user " + x.Param("id") + " " + x.Param("n") + " route=" + x.Param("route")
+	})
+	f.Get("/item/{id}", func(x flamego.Context) string { return "item " + x.Param("id") + " route=" + x.Param("route") })
+	f.Get("/files/{path: **}/raw", func(x flamego.Context) string { return "files " + x.Param("path") + " route=" + x.Param("route") })
+	f.Get("/v/{a: /[0-9]+/}-{b}", func(x flamego.Context) string {
+		return "ver " + x.Param("a") + " " + x.Param("b") + " route=" + x.Param("route")
+	})
+	var bad atomic.Value
+	var nbad int64
+	var wg sync.WaitGroup
+	for g := 0; g < c.Goroutines; g++ {
+		wg.Add(1)
+		go func(g int) {
+			defer wg.Done()
+			x := c.Seed + uint64(g)*0x9E3779B97F4A7C15
+			for i := 0; i < c.PerG; i++ {
+				x ^= x << 13
+				x ^= x >> 7
+				x ^= x << 17
+				path, want := hammerExpect(int(x%5), int((x>>8)%uint64(c.Keys)))
+				spy := &retSpy{h: http.Header{}}
+				f.ServeHTTP(spy, &http.Request{Method: "GET", URL: &url.URL{Path: path}, Header: http.Header{}, RequestURI: path})
+				if got := string(spy.body); got != want {
+					if atomic.AddInt64(&nbad, 1) == 1 {
+						bad.Store(fmt.Sprintf("GET %s answered %q, want %q", path, got, want))
+					}
+				}
+			}
+		}(g)
+	}
+	wg.Wait()
+	w.CountN("hammer-requests", c.Goroutines*c.PerG)
+	w.EvalN(c.Goroutines * c.PerG)
+	if n := atomic.LoadInt64(&nbad); n > 0 {
+		w.Violate("isolation", c, fmt.Sprintf("%d of %d concurrent requests on one instance were answered for another request; first: %s", n, c.Goroutines*c.PerG, bad.Load()))
+		return false
+	}
+	return true
+}
+
 func runC05(r *core.Run) {
-	r.Rule("per round one COLD instance (lazy caches unfilled) with routes of every kind (static shortcut, optional static short/long, placeholder, multi-bind regex, match-all with capture, final match-all, header-constrained, Any, named route used for URL building, JSON rendering, a panicking route behind Recovery, custom not-found chain) and Logger+Recovery+Renderer middleware; 32-64 goroutines behind a barrier, the first wave hits every route kind while cold, then few hot routes; every request carries a unique token in a header, the query, a cookie and the body, half of them also in the path - the other half use one of 400 shared path keys, so that paths repeat; an early middleware maps a request-scoped value; handlers reached through Next (fast path) and reflectively echo parameters, `route`, the injected value, a built URL and the body, with seeded yields / sleeps / pairwise rendezvous between reading and writing. Oracles: (1) Go race detector, report blocks with a framework frame counted from the log; (2) byte-for-byte equality (status, body, Content-Type, ETag, response tags) with an identically built instance that served the same requests serially, which in turn equals - for the cold wave and every 32nd request - a fresh instance that serves nothing else; (3) no foreign token in any response; (4) every line the request logger writes carries the request-scoped logger (request id) of the request it is about. non-trivial = distinct concurrent rounds")
+	r.Rule("per round one COLD instance (lazy caches unfilled) with routes of every kind (static shortcut, optional static short/long, placeholder, multi-bind regex, match-all with capture, final match-all, header-constrained, Any, named route used for URL building, JSON rendering, a panicking route behind Recovery, custom not-found chain) and Logger+Recovery+Renderer middleware; 32-64 goroutines behind a barrier, the first wave hits every route kind while cold, then few hot routes; every request carries a unique token in a header, the query, a cookie and the body, half of them also in the path - the other half use one of 400 shared path keys, so that paths repeat; an early middleware maps a request-scoped value; handlers reached through Next (fast path) and reflectively echo parameters, `route`, the injected value, a built URL and the body, with seeded yields / sleeps / pairwise rendezvous between reading and writing. Oracles: (1) Go race detector, report blocks with a framework frame counted from the log; (2) byte-for-byte equality (status, body, Content-Type, ETag, response tags) with an identically built instance that served the same requests serially, which in turn equals - for the cold wave and every 32nd request - a fresh instance that serves nothing else; (3) no foreign token in any response; (4) every line the request logger writes carries the request-scoped logger (request id) of the request it is about. Then one hammer instance: 32 goroutines x 60 000 / 300 000 requests over 700 keys and five route kinds with minimal self-describing handlers (each response names the route and parameters of the request it answers). non-trivial = distinct concurrent rounds")
 	r.Assume("happens-before race detection is timing independent for accesses that occur; the shadow history is bounded (4 accesses per word)")
 	r.Race = raceEnabled
 	if !raceEnabled {
@@ -606,8 +689,21 @@ func runC05(r *core.Run) {
 			break // stop early, report below
 		}
 	}
+	if r.Violations() == 0 {
+		perG := 60000
+		if r.Thorough() {
+			perG = 300000
+		}
+		hc := &hammerCase{Goroutines: 32, PerG: perG, Keys: 700, Seed: uint64(r.Seed)*7919 + 1}
+		runtime.GOMAXPROCS(runtime.NumCPU())
+		w.Begin("hammer", hc)
+		judgeHammer(w, hc)
+	}
 	w.Done()
 	w.Merge()
+	if r.Violations() == 0 {
+		r.GateCounter("hammer-requests", 1500000)
+	}
 	blocks, other := collectRaceReports()
 	keys := map[string]int{}
 	for _, b := range blocks {
